@@ -11,6 +11,7 @@ import (
 	"encoding/json"
 	"errors"
 	"fmt"
+	"runtime"
 	"strings"
 	"sync"
 	"time"
@@ -107,6 +108,9 @@ type Env struct {
 	suspAtStep bool
 	crashAt    int // >0: panic when the crashAt-th effect is about to be recorded... (0 = never)
 	nEffects   int
+	// additive (crash steps): when set, the simulated crash ends the calling goroutine (runtime.Goexit) instead of
+	// panicking, for entry points that run the machine on a goroutine of their own (RecoverSwaps)
+	crashExit bool
 }
 
 // SvcPlan: answers for the service-level pre-checks (used by the svc harness); nil fields = permissive defaults
@@ -143,6 +147,9 @@ func (e *Env) effect(term string, js interface{}) {
 	e.nEffects++
 	if e.crashAt > 0 && e.nEffects >= e.crashAt {
 		e.mu.Unlock()
+		if e.crashExit {
+			runtime.Goexit()
+		}
 		panic(crashSignal{})
 	}
 	e.effects = append(e.effects, term)
